@@ -36,6 +36,13 @@
       1d "gets ... executed" as an eventuality  not a function-level statement (needs the closed loop: events keep arriving,
                                                 patches are applied): monitored — function level resume-missed-at-first-cycle,
                                                 history level mon_c14 resume-missed; C03's liveness theorems are the coordinator's
+      1e the listing reaches the processor .... outside both models: they decide about noticed_by_listing / initial at the
+                                                level of PROCESSED events (an LEv / CEv is an event the processor got); that
+                                                every event the watch stream yields is processed, in order, is C01's lossless
+                                                clause.  Monitored end to end: the real queueing.watcher + worker +
+                                                process_resource_event on listing batches followed at once by watch events of
+                                                the same objects, with and without worker_limit, judged at quiescence —
+                                                resume-missed-end-to-end / resume-twice-end-to-end (c14_model.run_stream_history)
    2  "each resume handler runs to completion at most once per object per operator process: re-listings, reconnects and
       later changes of the object do not repeat it"
       2a the flags ............................ full: C14_initial_monotone, C14_closed_cycle_ends_resuming,
